@@ -338,9 +338,13 @@ Proof.
         { rewrite given_back_app. unfold slot. destruct (l_event l1); reflexivity. }
         rewrite G. lia.
       * intros j H. apply other. exact H.
-    + split; [exact Hraise|]. rewrite L. simpl. split.
-      * rewrite bal_app, same. simpl. lia.
-      * intros j H. rewrite bal_app, other by exact H. reflexivity.
+    + split; [exact Hfin|]. rewrite L. simpl. split.
+      * rewrite same. unfold slot at 2. simpl.
+        assert (G : given_back (o1 ++ match l_event l1 with Some e => [ORejected (Some e)] | None => [] end)
+                    = given_back o1 + slot l1).
+        { rewrite given_back_app. unfold slot. destruct (l_event l1); reflexivity. }
+        rewrite G. lia.
+      * intros j H. apply other. exact H.
 Qed.
 
 (* ----------------------------------------------------------- dispatching *)
